@@ -156,7 +156,9 @@ fn classify(text: &[u8], marks: &[Mark], paths: &[Vec<Step>], exp: &Value, got: 
                     prefix.iter().rposition(|&b| b == b'-').unwrap_or(0)
                 };
                 let strip = |s: &str| s.lines().map(|l| l.trim_start_matches(' ').to_string()).collect::<Vec<_>>();
-                if assumed != actual && strip(es) == strip(gs) {
+                // with a too-small content indentation, following less-indented lines may be swallowed too
+                let (se, sg) = (strip(es), strip(gs));
+                if assumed != actual && sg.len() >= se.len() && sg[..se.len()] == se[..] {
                     return ("load:block-scalar-explicit-indent:compact-line:parent-indent-taken-from-first-dash".into(), detail);
                 }
             }
